@@ -236,22 +236,8 @@ func checkC08(w *World, r *Report) {
 	}
 
 	// ---------------------------------------------------------------- R08.2
+	registry := codecRegistry(w)
 	fromCode := w.Decl(w.Func("internal/util/enc", "FromCode"))
-	registry := map[types.Object]bool{}
-	if fromCode != nil {
-		ast.Inspect(fromCode.Body, func(x ast.Node) bool {
-			cl, ok := x.(*ast.CompositeLit)
-			if !ok {
-				return true
-			}
-			for _, el := range cl.Elts {
-				if id, ok := el.(*ast.Ident); ok {
-					registry[p.TypesInfo.Uses[id]] = true
-				}
-			}
-			return true
-		})
-	}
 	if len(registry) == 0 {
 		r.Undecided("R08.2", "func:enc.FromCode", "-", "registry literal not found in FromCode")
 	}
@@ -278,7 +264,7 @@ func checkC08(w *World, r *Report) {
 		}
 		r.Check(len(problems) == 0, "R08.2", key, pos, fmt.Sprintf("registered, code %q", rune(ci.Code)), strings.Join(problems, "; "))
 	}
-	r.Check(len(registry) >= len(codecs), "R08.2", "func:enc.FromCode|complete", w.Pos(fromCode.Pos()), fmt.Sprintf("registry lists %d codecs for %d implementations", len(registry), len(codecs)), fmt.Sprintf("registry lists %d codecs but %d implementations exist", len(registry), len(codecs)))
+	r.Check(len(registry) >= len(codecs), "R08.2", "func:enc.FromCode|complete", declPos(w, fromCode), fmt.Sprintf("registry lists %d codecs for %d implementations", len(registry), len(codecs)), fmt.Sprintf("registry lists %d codecs but %d implementations exist", len(registry), len(codecs)))
 
 	// ---------------------------------------------------------------- R08.3
 	for _, ci := range codecs {
@@ -634,4 +620,77 @@ func c08WrittenLen(w *World, r *Report) {
 	if n == 0 {
 		r.Undecided("R08.5", "call:ascii85", "-", "no ascii85 call found")
 	}
+}
+
+// codecRegistry: the codec objects FromCode can hand out — the elements of the composite literal it
+// ranges over, or of the package-level table it reads.
+func codecRegistry(w *World) map[types.Object]bool {
+	p := w.Pkg("internal/util/enc")
+	fromCode := w.Decl(w.Func("internal/util/enc", "FromCode"))
+	registry := map[types.Object]bool{}
+	if fromCode != nil {
+		ast.Inspect(fromCode.Body, func(x ast.Node) bool {
+			cl, ok := x.(*ast.CompositeLit)
+			if !ok {
+				return true
+			}
+			for _, el := range cl.Elts {
+				if id, ok := el.(*ast.Ident); ok {
+					registry[p.TypesInfo.Uses[id]] = true
+				}
+			}
+			return true
+		})
+	}
+	if len(registry) == 0 && fromCode != nil {
+		// the table may be a package-level variable FromCode iterates over / looks up in
+		used := map[types.Object]bool{}
+		ast.Inspect(fromCode.Body, func(x ast.Node) bool {
+			if id, ok := x.(*ast.Ident); ok {
+				if v, ok := p.TypesInfo.Uses[id].(*types.Var); ok && v.Parent() == p.Types.Scope() {
+					used[v] = true
+				}
+			}
+			return true
+		})
+		for _, f := range p.Syntax {
+			for _, d := range f.Decls {
+				gd, ok := d.(*ast.GenDecl)
+				if !ok {
+					continue
+				}
+				for _, sp := range gd.Specs {
+					vs, ok := sp.(*ast.ValueSpec)
+					if !ok {
+						continue
+					}
+					for i, nm := range vs.Names {
+						if !used[p.TypesInfo.Defs[nm]] || i >= len(vs.Values) {
+							continue
+						}
+						cl, ok := vs.Values[i].(*ast.CompositeLit)
+						if !ok {
+							continue
+						}
+						for _, el := range cl.Elts {
+							if kv, ok := el.(*ast.KeyValueExpr); ok {
+								el = kv.Value
+							}
+							if id, ok := el.(*ast.Ident); ok {
+								registry[p.TypesInfo.Uses[id]] = true
+							}
+						}
+					}
+				}
+			}
+		}
+	}
+	return registry
+}
+
+func declPos(w *World, fd *ast.FuncDecl) string {
+	if fd == nil {
+		return "-"
+	}
+	return w.Pos(fd.Pos())
 }
